@@ -142,6 +142,64 @@ def gen_token(rng, allow_nl=True):
     return [(k, gen_text(rng, k, allow_nl)) for k in (rng.choice('NSH') for _ in range(n))]
 
 
+RICH_SIGNIFICANT = ['<<', '<<EOF', '<<-', '<<E x', ':>', ':> x', '<:>', '<<@[X]@']
+
+
+def split_variants(base, max_pieces=3):
+    """every way of writing [base] as 1..max_pieces adjacent fragments, each fragment naked / soft / hard where that is possible"""
+    out = []
+
+    def kinds_of(piece):
+        ks = []
+        if not any(c.isspace() or c in '\'"' for c in piece):
+            ks.append('N')
+        if '"' not in piece:
+            ks.append('S')
+        if "'" not in piece:
+            ks.append('H')
+        return ks
+
+    def rec(rest, acc):
+        if not rest:
+            out.append(list(acc))
+            return
+        if len(acc) == max_pieces:
+            return
+        for i in range(1, len(rest) + 1):
+            if len(acc) == max_pieces - 1 and i != len(rest):
+                continue
+            for k in kinds_of(rest[:i]):
+                acc.append((k, rest[:i]))
+                rec(rest[i:], acc)
+                acc.pop()
+
+    rec(base, [])
+    return out
+
+
+def rich_significant_tokens():
+    """strings that START with characters significant to the rich-string parser, in every split and quoting (seeded C09-m14)"""
+    toks, seen = [], set()
+    for base in RICH_SIGNIFICANT:
+        for t in split_variants(base, 3 if len(base) <= 5 else 2):
+            key = (render_tok(t), tuple(k for k, _ in t))
+            merged = []
+            for k, x in t:        # adjacent naked fragments are one naked fragment
+                if merged and merged[-1][0] == 'N' and k == 'N':
+                    merged[-1] = ('N', merged[-1][1] + x)
+                else:
+                    merged.append((k, x))
+            key = repr(merged)
+            if key not in seen:
+                seen.add(key)
+                toks.append(merged)
+    return toks
+
+
+def is_plain_for_rich(t):
+    return not (render_tok(t).startswith('<<') or (t[0][0] == 'N' and chars_tok(t) == ':>'))
+
+
 def gen_items(rng, nmin, nmax, seps=SEPS, last_empty_ok=True, allow_nl=True):
     n = rng.randint(nmin, nmax)
     items = []
@@ -1319,6 +1377,21 @@ def run(ctx, res):
             add(parse_case(im, 'string', render_tok(t), ('', ('plain', [(t, '')], None))), ('string', q, w))
             add(script_case(im, '', [('tok', t, ' '), ('str', True, t, ' '), ('str', False, t, '')], None), ('script', q, w))
             res.count('quoted option word')
+    # values that begin with << or :> written as adjacent fragments in every split / quoting: one string whatever the split,
+    # and the lines that follow are not swallowed (seeded C09-m14)
+    follow = [([('N', 'line')], '\n'), ([('N', 'EOF')], '\n'), ([('N', 'E')], '\n'), ([('N', 'next')], '\n')]
+    for t in rich_significant_tokens():
+        src_t = render_tok(t)
+        add(parse_case(im, 'string', src_t + '\n' + render_items(follow), ('', ('plain', [(t, '\n')] + follow, None))), ('string', src_t))
+        l = ([_arg('N', 'a'), ('tok', t, ' '), _arg('N', 'c', '')], None, 'EOF\nnext\n')
+        if not (t[0][0] == 'N' and chars_tok(t) == ')'):
+            add(list_case(im, render_list(l), ('', l, None)), ('list', src_t))
+        if is_plain_for_rich(t):
+            add(parse_case(im, 'rich', src_t + '\n' + render_items(follow), ('', ('plain', [(t, '\n')] + follow, None))), ('rich', src_t))
+            add(list_case(im, ' ' + render_list(l), (' ', l, None), is_args=True), ('args', src_t))
+            add(script_case(im, '', [('str', True, t, '\n'), ('tok', [('N', 'line')], '\n'), ('tok', [('N', 'EOF')], '\n'),
+                                     ('str', True, t, ' '), ('tok', [('N', 'c')], '')], None), ('script', src_t))
+        res.count('value beginning with << or :> in fragments')
     # several strings / tokens in one stream
     for j in range(len(CORPUS_SCRIPT) + n_script):
         if j < len(CORPUS_SCRIPT):
@@ -1358,6 +1431,13 @@ def run(ctx, res):
             add(args_e2e_case(e2e, ([_arg('N', 'a'), ('tok', [('SH'[j % 2], w)], ' '), _arg('N', 'b', '')], None, None)),
                 ('args-e2e', w))
             res.count('end to end: quoted option word')
+        sig = [t for t in rich_significant_tokens() if is_plain_for_rich(t) and len(t) >= 2 and '@[' not in chars_tok(t)
+               and render_tok(t)[0] not in '-(']
+        for j, t in enumerate(sig):
+            if j % 3 == 0:
+                add(e2e_case(e2e, ('plain', [(t, '\n')] + E2E_NEXT_ITEMS, None)), ('e2e', render_tok(t)))
+            elif j % 3 == 1 and ' ' not in chars_tok(t):
+                add(args_e2e_case(e2e, ([_arg('N', 'a'), ('tok', t, ' '), _arg('N', 'c', '')], None, None)), ('args-e2e', render_tok(t)))
         for j in range(len(CORPUS_DIR) + n_e2e // 2):
             segs, ut = CORPUS_DIR[j] if j < len(CORPUS_DIR) else gen_dir(rng)
             add(dir_e2e_case(e2e, segs, ut), ('dir-e2e', render_segs(segs) + render_unterm(ut)))
